@@ -462,6 +462,32 @@ def Cfg.install (c : Cfg) : Option State :=
   | some q, some s => some ⟨q.getD .nop, s.getD .nop⟩
   | _, _ => none
 
+/-- `martianhttp.Modifier.SetRequestModifier` / `SetResponseModifier` with that side of a configuration
+(a rejected configuration changes nothing; nil becomes the no-op modifier). The handlers look the
+verifier up in the pair in force at the time of the call: there is no other state. -/
+def State.setSide (s : State) (side : Side) (c : Cfg) : State :=
+  match c.compile side with
+  | none => s
+  | some o => match side with
+    | .req => ⟨o.getD .nop, s.res⟩
+    | .res => ⟨s.req, o.getD .nop⟩
+
+/-- Re-POSTing a configuration: both sides are replaced, or nothing when it is rejected. -/
+def State.post (s : State) (c : Cfg) : State := (c.install).getD s
+
+/-- Histories that also reconfigure. -/
+inductive EOp
+  | op (o : Op)
+  | post (c : Cfg)
+  | set (side : Side) (c : Cfg)
+
+def State.stepE (s : State) : EOp → State
+  | .op o => s.step o
+  | .post c => s.post c
+  | .set side c => s.setSide side c
+
+def State.runE (s : State) (h : List EOp) : State := h.foldl State.stepE s
+
 /-! ### Specification side: initial state, and the report a history calls for
 
 `T.spec side t ms` is the report the property demands of (one side of) a tree after the
